@@ -20,7 +20,19 @@ def make_pit(prog, seed, **kw):
     with torch.no_grad():
         y0 = model(x).clone()
     out = {'model': model, 'x': x, 'y0': y0, 'prog': prog}
-    args = dict(input_shape=G.input_shape(prog), exclude_names=G.excluded_names(prog))
+    # how the input signature is handed to the constructor rotates over the programs (deterministically): the shape, a one-sample
+    # example, or the whole 3-sample witness batch - nothing a check observes may depend on the batch size of that example
+    import hashlib
+    import json
+    via = int(hashlib.sha1(json.dumps(prog, sort_keys=True).encode()).hexdigest(), 16) % 3
+    if 'input_shape' in kw or 'input_example' in kw or via == 0:
+        args = dict(input_shape=G.input_shape(prog))
+    elif via == 1:
+        args = dict(input_example=x[:1].clone())
+    else:
+        args = dict(input_example=x.clone())
+    out['signature_via'] = ('shape', 'example-1', 'example-3')[via]
+    args['exclude_names'] = G.excluded_names(prog)
     args.update(kw)
     try:
         out['pit'] = PIT(model, **args)
